@@ -1,2 +1,11 @@
 #!/bin/sh
-exit 0
+# offline setup: parse every specification module, build the driver once
+cd "$(dirname "$0")/.." || exit 2
+rc=0
+for f in spec/*.tla; do
+  ( cd spec && java -cp /opt/veriftools/tla/tla2tools.jar:/opt/veriftools/tla/CommunityModules-deps.jar tla2sany.SANY "$(basename "$f")" >/tmp/vsany.$$ 2>&1 ) || { cat /tmp/vsany.$$; rc=2; }
+  if grep -q "Fatal errors\|\*\*\* Errors" /tmp/vsany.$$; then echo "SANY: $f"; cat /tmp/vsany.$$; rc=2; fi
+done
+rm -f /tmp/vsany.$$
+python3 tools/vlib/build.py asan || rc=2
+exit $rc
